@@ -280,6 +280,11 @@ def run_set(ctx, case):
     for n in (1, 2, 3, 8, 31, 32):
         queries.append("".join(rng.choice("0123456789abcdef") for _ in range(n)))
     queries = list(dict.fromkeys(queries))
+    # resolution must not depend on what the session has cached so far: shuffle, then ask every
+    # ambiguous or unknown prefix once more at the end, when most state points have been loaded
+    rng.shuffle(queries)
+    again = [q for q in queries if len(q) < 32 and len([i for i in inited if i.startswith(q)]) != 1]
+    queries = queries + again
     if case.get("proc"):
         code = "import sys, json\nfrom vf.props.c02 import observe\nprint(json.dumps(observe(sys.argv[1], json.load(sys.stdin))))\n"
         r = subprocess.run([sys.executable, "-B", "-c", code, root], input=json.dumps(queries),
